@@ -84,7 +84,7 @@ def explore_job(ix, name, run, obligations, overrides=None, pre=None, panics_are
     try:
         results = e.explore(run2, max_paths=max_paths, deadline=deadline)
     except EngineError as ex:
-        res.inconclusive.append(f'engine error: {ex}'); res.merge_engine(e); res.wall_s = time.time() - t0; return res
+        res.inconclusive.append(f'engine error: {ex} | stack: ' + ' > '.join(getattr(ex, 'stack', [])[-5:])); res.merge_engine(e); res.wall_s = time.time() - t0; return res
     except AnchorError as ex:
         res.inconclusive.append(f'anchor: {ex}'); res.merge_engine(e); res.wall_s = time.time() - t0; return res
     if e.truncated: res.inconclusive.append(f'exploration truncated ({e.truncated}) after {len(results)} paths')
